@@ -289,16 +289,41 @@ func c20Gen(r *rand.Rand, tier string) []any {
 		} else {
 			routes = rGenTable(r, rGenOpts{escaped: r.Intn(3) == 0, maxRoute: 6})
 		}
+		// literal segments (and tails) of the table's own patterns: values equal to them lead the reversed URL under
+		// the static branches of OTHER routes, which is where "provided no other route takes priority" is decided
+		var segs, tails []string
+		for _, rt := range routes {
+			parts := strings.Split(strings.Trim(rt.Path, "/"), "/")
+			for i, sg := range parts {
+				if sg != "" && !strings.ContainsAny(sg, ":*\\") {
+					segs = append(segs, sg)
+					tails = append(tails, strings.Join(parts[i:], "/"))
+				}
+			}
+		}
 		for k := 0; k < per; k++ {
 			idx := r.Intn(len(routes))
 			toks, _, _ := rNorm(routes[idx].Path)
 			var args []string
+			own := len(segs) > 0 && r.Intn(3) == 0
 			for _, t := range toks {
 				switch t.kind {
 				case 'p':
-					args = append(args, c20Values[r.Intn(len(c20Values))])
+					if own {
+						args = append(args, segs[r.Intn(len(segs))])
+					} else {
+						args = append(args, c20Values[r.Intn(len(c20Values))])
+					}
 				case 'a':
-					args = append(args, c20Wild[r.Intn(len(c20Wild))])
+					if own {
+						tl := tails[r.Intn(len(tails))]
+						if strings.ContainsAny(tl, ":*") {
+							tl = strings.NewReplacer(":", "", "*", "x").Replace(tl)
+						}
+						args = append(args, tl+[]string{"", "/42", "/a/b"}[r.Intn(3)])
+					} else {
+						args = append(args, c20Wild[r.Intn(len(c20Wild))])
+					}
 				}
 			}
 			switch r.Intn(12) {
